@@ -571,8 +571,187 @@ fn api_case(t: &mut Tape, rec: &mut Rec) -> CaseResult {
     Ok(())
 }
 
+
+// ---------------------------------------------------------------------------------------------
+// subpacket values built and modified through the public API, carried by a freshly made signature
+// ---------------------------------------------------------------------------------------------
+
+fn api_subpacket_value(t: &mut Tape) -> (SubpacketData, String) {
+    use pgp::packet::{Features, KeyFlags, Notation, RevocationCode};
+    use pgp::types::{Duration, Fingerprint, KeyId, KeyVersion, RevocationKey, RevocationKeyClass, Timestamp};
+    let bytes = |t: &mut Tape, max: usize| -> Vec<u8> {
+        let n = t.range(0, max);
+        expand(t.u64(), n)
+    };
+    match t.below(26) {
+        0 | 1 | 2 => {
+            // Key Flags: default or parsed from 0..3 octets, then any sequence of setters
+            let start = t.below(5);
+            let mut kf = match start {
+                0 => KeyFlags::default(),
+                n => {
+                    let raw = expand(t.u64(), n - 1);
+                    KeyFlags::try_from_reader(&raw[..]).unwrap_or_default()
+                }
+            };
+            let mut ops = vec![];
+            for _ in 0..t.below(5) {
+                let v = t.chance(190);
+                let which = t.below(10);
+                match which {
+                    0 => kf.set_certify(v),
+                    1 => kf.set_encrypt_comms(v),
+                    2 => kf.set_encrypt_storage(v),
+                    3 => kf.set_sign(v),
+                    4 => kf.set_shared(v),
+                    5 => kf.set_authentication(v),
+                    6 => kf.set_shared(v),
+                    7 => kf.set_group(v),
+                    8 => kf.set_adsk(v),
+                    _ => kf.set_timestamping(v),
+                }
+                ops.push(format!("{}={v}", ["certify", "encrypt_comms", "encrypt_storage", "sign", "shared", "authentication", "shared", "group", "adsk", "timestamping"][which]));
+            }
+            (SubpacketData::KeyFlags(kf), format!("KeyFlags from {} then {ops:?}", if start == 0 { "default()".to_string() } else { format!("{} parsed octets", start - 1) }))
+        }
+        3 | 4 => {
+            let start = t.below(4);
+            let mut f = match start {
+                0 => Features::new(),
+                n => Features::from(&expand(t.u64(), n - 1)[..]),
+            };
+            let mut ops = vec![];
+            for _ in 0..t.below(3) {
+                let v = t.bool();
+                if t.bool() {
+                    f.set_seipd_v1(v);
+                    ops.push(format!("seipd_v1={v}"));
+                } else {
+                    f.set_seipd_v2(v);
+                    ops.push(format!("seipd_v2={v}"));
+                }
+            }
+            (SubpacketData::Features(f), format!("Features from {} then {ops:?}", if start == 0 { "new()".to_string() } else { format!("{} octets", start - 1) }))
+        }
+        5 => (SubpacketData::PreferredSymmetricAlgorithms(bytes(t, 12).into_iter().map(SymmetricKeyAlgorithm::from).collect()), "PreferredSymmetricAlgorithms".into()),
+        6 => (SubpacketData::PreferredHashAlgorithms(bytes(t, 12).into_iter().map(HashAlgorithm::from).collect()), "PreferredHashAlgorithms".into()),
+        7 => (SubpacketData::PreferredCompressionAlgorithms(bytes(t, 12).into_iter().map(pgp::types::CompressionAlgorithm::from).collect()), "PreferredCompressionAlgorithms".into()),
+        8 => (SubpacketData::KeyServerPreferences(bytes(t, 7).into_iter().collect()), "KeyServerPreferences".into()),
+        9 => (SubpacketData::RevocationReason(RevocationCode::from(t.u8()), bytes(t, 60).into()), "RevocationReason".into()),
+        10 => (SubpacketData::IsPrimary(t.bool()), "IsPrimary".into()),
+        11 => (SubpacketData::Revocable(t.bool()), "Revocable".into()),
+        12 => (SubpacketData::Notation(Notation { readable: t.bool(), name: bytes(t, 40).into(), value: bytes(t, 300).into() }), "Notation".into()),
+        13 => {
+            // RFC 9580 5.2.3.23: the fingerprint of a Revocation Key subpacket is a 20-octet v4 fingerprint
+            let fp = expand(t.u64(), 20);
+            (SubpacketData::RevocationKey(RevocationKey::new(if t.bool() { RevocationKeyClass::Default } else { RevocationKeyClass::Sensitive }, pgp::crypto::public_key::PublicKeyAlgorithm::from(t.u8()), &fp)), format!("RevocationKey with a {}-octet fingerprint", fp.len()))
+        }
+        14 => (SubpacketData::TrustSignature(t.u8(), t.u8()), "TrustSignature".into()),
+        15 => (SubpacketData::ExportableCertification(t.bool()), "ExportableCertification".into()),
+        16 => {
+            let v6 = t.bool();
+            let fp = Fingerprint::new(if v6 { KeyVersion::V6 } else { KeyVersion::V4 }, &expand(t.u64(), if v6 { 32 } else { 20 })).expect("fingerprint");
+            if t.bool() {
+                (SubpacketData::IntendedRecipientFingerprint(fp), "IntendedRecipientFingerprint".into())
+            } else {
+                (SubpacketData::IssuerFingerprint(fp), "IssuerFingerprint".into())
+            }
+        }
+        17 => (SubpacketData::PreferredEncryptionModes(bytes(t, 5).into_iter().map(AeadAlgorithm::from).collect()), "PreferredEncryptionModes".into()),
+        18 => {
+            let b = bytes(t, 12);
+            (SubpacketData::PreferredAeadAlgorithms(b.chunks_exact(2).map(|c| (SymmetricKeyAlgorithm::from(c[0]), AeadAlgorithm::from(c[1]))).collect()), "PreferredAeadAlgorithms".into())
+        }
+        19 => (SubpacketData::Experimental(100 + t.below(11) as u8, bytes(t, 40).into()), "Experimental".into()),
+        20 => (SubpacketData::Other(*t.pick(&[0u8, 1, 8, 13, 36, 38, 41, 60, 99, 111, 127]), bytes(t, 40).into()), "Other".into()),
+        21 => (SubpacketData::SignatureTarget(pgp::crypto::public_key::PublicKeyAlgorithm::from(t.u8()), HashAlgorithm::from(t.u8()), bytes(t, 64).into()), "SignatureTarget".into()),
+        22 => (SubpacketData::SignatureExpirationTime(Duration::from_secs(t.u32())), "SignatureExpirationTime".into()),
+        23 => (SubpacketData::KeyExpirationTime(Duration::from_secs(t.u32())), "KeyExpirationTime".into()),
+        24 => (SubpacketData::IssuerKeyId(KeyId::from(<[u8; 8]>::try_from(&expand(t.u64(), 8)[..]).expect("8"))), "IssuerKeyId".into()),
+        _ => (SubpacketData::SignatureCreationTime(Timestamp::from_secs(t.u32())), "SignatureCreationTime (second)".into()),
+    }
+}
+
+fn api_subpacket_case(t: &mut Tape, rec: &mut Rec) -> CaseResult {
+    use pgp::packet::{SignatureConfig, SignatureType};
+    use pgp::types::{KeyDetails, Timestamp};
+    let (data, what) = api_subpacket_value(t);
+    let name = format!("{data:?}").split(['(', ' ', '{']).next().unwrap_or("?").to_string();
+    rec.label(format!("api-subpacket:{name}"));
+    rec.nontrivial((what.clone(), format!("{data:?}")));
+    rec.describe(|| format!("{what}: {data:?}"));
+    // (1) the subpacket alone
+    let sp = match Subpacket::regular(data.clone()) {
+        Ok(sp) => sp,
+        Err(e) => {
+            // values the constructor refuses are not objects the library can construct
+            rec.label("api-subpacket:refused-by-constructor");
+            let _ = e;
+            return Ok(());
+        }
+    };
+    let mut w = vec![];
+    if let Err(e) = sp.to_writer(&mut w) {
+        return fail("C05:api-subpacket-fails-to-serialize", format!("{what}: {e}"));
+    }
+    if sp.write_len() != w.len() {
+        return fail(format!("C05:subpacket-{name}-write-len-differs-from-bytes-written"), format!("{what}: write_len {}, written {}", sp.write_len(), w.len()));
+    }
+    // (2) carried in the hashed (or unhashed) area of a signature made now
+    let kind = if t.bool() { Kind::Ed25519V4 } else { Kind::Ed25519V6 };
+    let z = zoo::get(kind);
+    let key = &z.secret.primary_key;
+    let mut rng = ChaCha8Rng::from_seed(t.seed32());
+    let mut cfg = if kind.is_v6() { SignatureConfig::v6(&mut rng, SignatureType::Binary, key.algorithm(), HashAlgorithm::Sha512).map_err(|e| crate::engine::Fail { sig: "C05:sign-error".into(), detail: e.to_string() })? } else { SignatureConfig::v4(SignatureType::Binary, key.algorithm(), HashAlgorithm::Sha256) };
+    let base = vec![Subpacket::regular(SubpacketData::SignatureCreationTime(Timestamp::from_secs(1_700_000_123))).expect("subpacket"), Subpacket::regular(SubpacketData::IssuerFingerprint(key.fingerprint())).expect("subpacket")];
+    let in_hashed = t.chance(180);
+    if in_hashed {
+        cfg.hashed_subpackets = [base, vec![sp.clone()]].concat();
+    } else {
+        cfg.hashed_subpackets = base;
+        cfg.unhashed_subpackets = vec![sp.clone()];
+    }
+    rec.label(if in_hashed { "api-subpacket:in-hashed-area" } else { "api-subpacket:in-unhashed-area" });
+    let sig = match cfg.sign(key, &Password::empty(), &b"data"[..]) {
+        Ok(s) => s,
+        Err(_) => {
+            rec.label("api-subpacket:refused-at-sign-time");
+            return Ok(());
+        }
+    };
+    let p: Packet = sig.clone().into();
+    let (w, ann) = packet_with_header(&p).map_err(|e| crate::engine::Fail { sig: "C05:accepted-packet-fails-to-serialize".into(), detail: format!("{what}: {e}") })?;
+    if w.len() != ann {
+        return fail("C05:write-len-with-header-differs-from-bytes-written:api-built-signature", format!("{what}: announced {ann}, written {}", w.len()));
+    }
+    // the header must de-frame to exactly one packet (independent de-framer)
+    match wire::split_packets(&w) {
+        Ok(ps) if ps.len() == 1 => {}
+        other => return fail("C05:api-built-signature-header-does-not-match-body", format!("{what}: de-framer says {:?}", other.map(|v| v.len()))),
+    }
+    match parse_one(&w) {
+        Ok(p2) => {
+            let mut w2 = vec![];
+            let _ = pgp::packet::PacketTrait::to_writer_with_header(&p2, &mut w2);
+            if w2 != w {
+                return fail("C05:api-built-signature-reencoded-differently", format!("{what}: {} bytes written, {} after parse and re-serialization", w.len(), w2.len()));
+            }
+            if p2 != p {
+                return fail("C05:reparsed-value-differs:api-built-subpacket", format!("{what}: the signature parsed back from its own serialization is not equal to the signature that was serialized"));
+            }
+            if let Packet::Signature(s2) = &p2 {
+                if s2.verify(&z.public.primary_key, &b"data"[..]).is_err() {
+                    return fail("C05:api-built-signature-does-not-verify-after-round-trip", what);
+                }
+            }
+        }
+        Err(e) => return fail("C05:own-serialization-rejected", format!("signature carrying {what}: {e}")),
+    }
+    Ok(())
+}
+
 pub fn run(ctx: &Ctx) {
-    ctx.set_rule("generated: packet bodies produced field by field by the harness' own RFC 9580 encoder (signatures v3/v4/v6 with all subpacket types incl. critical/unknown/long/embedded, SKESK v4/v5/v6, PKESK v3/v6, OPS v3/v6, literal/compressed/SEIPD/SED/marker/padding/trust/user id/user attribute, public and secret (sub)keys of all zoo algorithms with every S2K usage/type/cipher) under canonical new-format or legacy headers, every one-octet id drawn from the listed values or 0..255; oracle on every accepted packet: re-serialization identical to the input, write_len == bytes written (packet, body, with header), header de-frames to exactly the body, parse(serialize(v)) == v; API group: zoo certificates (public/secret/locked), set_password_with_s2k/remove_password, Subpacket::regular over multi-byte strings, unhashed subpacket push/insert/remove, detached signatures, re-framed literal packets; non-trivial = packet accepted by the parser / API object built; distinct = (tag, body length, description)");
+    ctx.set_rule("generated: packet bodies produced field by field by the harness' own RFC 9580 encoder (signatures v3/v4/v6 with all subpacket types incl. critical/unknown/long/embedded, SKESK v4/v5/v6, PKESK v3/v6, OPS v3/v6, literal/compressed/SEIPD/SED/marker/padding/trust/user id/user attribute, public and secret (sub)keys of all zoo algorithms with every S2K usage/type/cipher) under canonical new-format or legacy headers, every one-octet id drawn from the listed values or 0..255; oracle on every accepted packet: re-serialization identical to the input, write_len == bytes written (packet, body, with header), header de-frames to exactly the body, parse(serialize(v)) == v; API group: zoo certificates (public/secret/locked), set_password_with_s2k/remove_password, Subpacket::regular over multi-byte strings, unhashed subpacket push/insert/remove, detached signatures, re-framed literal packets; api-subpacket-values: every SubpacketData variant built through constructors and setters (KeyFlags/Features from default or parsed 0..3 octets then any setter sequence, preference lists of arbitrary ids and lengths, notations, revocation keys, fingerprints, experimental/other ids, ...) carried in the hashed or unhashed area of a freshly made v4/v6 signature: subpacket and packet write_len == bytes written, header de-frames, parse(serialize(v)) == v, identical re-encoding, still verifies; non-trivial = packet accepted by the parser / API object built; distinct = (tag, body length, description)");
     ctx.assume("the harness' encoder emits only canonical encodings (minimal lengths, canonical MPIs); inputs rPGP rejects are counted, not judged");
     zoo::warm(zoo::ALL);
     let keys = harvest_keys();
@@ -581,4 +760,6 @@ pub fn run(ctx: &Ctx) {
     ctx.group("generated-packets", Source::Random { n, tape_len: 600 }, |t, rec| generated_case(t, rec, &keys));
     let n = ctx.tier.pick(4_000u64, 60_000);
     ctx.group("api-objects", Source::Random { n, tape_len: 120 }, api_case);
+    let n = ctx.tier.pick(20_000u64, 400_000);
+    ctx.group("api-subpacket-values", Source::Random { n, tape_len: 260 }, api_subpacket_case);
 }
